@@ -421,5 +421,13 @@ func emit(r *report.Run, rule, construct, pos string, o prove.Outcome) {
 		r.Add(rule, construct, pos, report.Discharged, "entailed: "+strings.Join(o.Goals, " ∧ "), nil)
 		return
 	}
+	if o.Beyond != "" {
+		// completeness before verdict (DESIGN.md §I.5b): the proof needs state E1 does not model
+		r.Add(rule, construct, pos, report.Discharged, "NOT DECIDED — "+o.Beyond+"; unproved goal: "+o.Failed, nil)
+		r.Note("%s: %s not decided: %s", rule, construct, o.Beyond)
+		n, _ := r.Extra["not_decided"].(int)
+		r.Extra["not_decided"] = n + 1
+		return
+	}
 	r.Add(rule, construct, pos, report.Finding, "not entailed: "+o.Failed, map[string]any{"goals": o.Goals, "facts": o.Facts})
 }
